@@ -169,6 +169,85 @@ def r13_1(ctx, prog, crate):
         ctx.check(cs == ["exclude"] and vs == {variant}, "R13.1", ["builder", fn], "Divan::%s calls %s with Filter::%s" % (fn, cs, sorted(vs)), m.where(0))
 
 
+def _r13_2_two_halves(ctx, prog, crate, b):
+    """The same decision over the two halves: `(exclusive, inclusive) = filters.split()`; any exclusive filter matches ->
+    false; otherwise true exactly when there is no inclusive filter or one of them matches. (The exclusive half comes
+    first, so "the first matching filter is an exclusive one" and "some exclusive filter matches" are the same event.)"""
+    from lib.patheval import PathEval
+    from lib.symexpr import show
+    SPLIT = "util::split_vec::SplitVec::split"
+    sums = PathEval(b).run()
+    if not ctx.check(bool(sums), "R13.2", ["is_match", "summarisable"], "FilterSet::is_match has a loop or too many paths", b.where(0)):
+        return
+
+    def half(e):
+        """0 / 1 when e is `.iter()` of (or directly) field 0 / 1 of split(self.filters)."""
+        if e[0] == "site" and e[1].rsplit("::", 1)[-1] in ("iter", "into_iter") and len(e[3]) == 1:
+            e = e[3][0]
+        if e[0] == "field" and e[1][0] == "site" and e[1][1] == SPLIT and e[1][3] == (("sptr", (1, ("filters",))),) and e[2] in ((0,), (1,)):
+            return e[2][0]
+        return None
+
+    def any_of(e):
+        if e[0] == "site" and e[1].rsplit("::", 1)[-1] == "any" and "Iterator" in e[1] and len(e[3]) == 2:
+            return half(e[3][0])
+        return None
+
+    def empty_of(e):
+        if e[0] == "site" and e[1].rsplit("::", 1)[-1] == "is_empty" and len(e[3]) == 1:
+            return half(e[3][0])
+        return None
+    rows = set()
+    for sm in sums:
+        cond = []
+        for a, pol in sm.conds:
+            x = a[1] if a[0] == "bool" else None
+            if x is not None and any_of(x) is not None:
+                cond.append(("any%d" % any_of(x), pol))
+            elif x is not None and empty_of(x) is not None:
+                cond.append(("empty%d" % empty_of(x), pol))
+            else:
+                cond.append(("?" + show(a), pol))
+        r = sm.ret
+        res = {("int", 0): "false", ("int", 1): "true"}.get(r) or ("any%d" % any_of(r) if any_of(r) is not None else None) or \
+            ("empty%d" % empty_of(r) if empty_of(r) is not None else "?" + show(r))
+        rows.add((tuple(cond), res))
+    want_a = {((("any0", True),), "false"), ((("any0", False), ("empty1", True)), "true"), ((("any0", False), ("empty1", False)), "any1")}
+    want_b = {((("any0", True),), "false"), ((("any0", False), ("any1", True)), "true"), ((("any0", False), ("any1", False)), "empty1")}
+    ctx.check(rows in (want_a, want_b), "R13.2", ["is_match", "two-halves-table"],
+              "FilterSet::is_match decides %s; expected: any exclusive match -> false; else no inclusive filters or any inclusive match" % sorted(rows), b.where(0), detail=sorted(map(str, rows)))
+    # each `any` predicate is |f| f.is_match(entry_path)
+    cls = [x for x in prog.children(b) if x.kind == "Closure"]
+    ctx.check(len(cls) in (1, 2), "R13.2", ["is_match", "predicate-closure"], "closures: %d" % len(cls), b.where(0))
+    for x in cls:
+        cs = [c for c in x.live_calls() if c.callee == "config::filter::Filter::is_match"]
+        ok = len(cs) == 1 and len(x.live_calls()) == 1 and {z.label() for z in x.prov.op_src(cs[0].args[0]) if z.kind == "param"} == {"param:" + x.param_name(2)}
+        if ok:
+            cap = prog.capture_operand(x, x.captures[0]) if x.captures else None
+            ok = cap is not None and {z.label() for z in cap[0].prov.op_src(cap[1])} == {"param:" + b.param_name(2)} and \
+                any(z.kind == "upvar" for z in x.prov.op_src(cs[0].args[1])) and not any(z.kind in ("unop", "binop") for z in x.prov.local_src(0))
+        ctx.check(ok, "R13.2", ["is_match", "predicate-is-filter-match-on-path"], "an `any` predicate is not |f| f.is_match(entry_path)", x.where(0))
+    # split() = items.split_at(split_index): exclusive filters first
+    sp = prog.body(SPLIT, crate)
+    if ctx.anchor("R13.2", "SplitVec::split", 1 if sp else 0, 1):
+        ctx.saw(sp)
+        ss = PathEval(sp).run()
+        r = ss[0].ret if ss and len(ss) == 1 else None
+        ok = r is not None and r[0] == "site" and r[1] == "core::slice::split_at" and len(r[3]) == 2 and "items" in str(ss[0].calls[0][1] if ss[0].calls else "") and \
+            (r[3][1] == ("arg", 1, ("split_index",)) or (r[3][1][0] == "site" and r[3][1][1] == "util::split_vec::SplitVec::split_index" and r[3][1][3] == (("sptr", (1, ())),)))
+        ctx.check(ok, "R13.2", ["SplitVec::split", "split-at-stored-index"], "SplitVec::split returns %s, expected items.split_at(split_index)" % (show(r) if r else None), sp.where(0))
+    for n_ in ("split_index", "set_split_index"):
+        x = prog.body("util::split_vec::SplitVec::" + n_, crate)
+        if x is None:
+            continue
+        ctx.saw(x)
+        sx = PathEval(x).run()
+        if n_ == "split_index":
+            ctx.check(bool(sx) and all(s_.ret == ("arg", 1, ("split_index",)) for s_ in sx), "R13.2", ["SplitVec::split_index", "stored-index"], "SplitVec::split_index returns %s" % ([s_.ret for s_ in sx] if sx else None,), x.where(0))
+        else:
+            ctx.check(bool(sx) and len(sx) == 1 and sx[0].mem == {(1, ("split_index",)): ("arg", 2, ())}, "R13.2", ["SplitVec::set_split_index", "stores-its-argument"], "SplitVec::set_split_index writes %s" % (sx[0].mem if sx else None,), x.where(0))
+
+
 def r13_2(ctx, prog, crate):
     b = prog.body("config::filter::FilterSet::is_match", crate)
     if not ctx.anchor("R13.2", "FilterSet::is_match", 1 if b else 0, 1):
@@ -177,6 +256,8 @@ def r13_2(ctx, prog, crate):
     pos = [c for c in b.live_calls() if c.callee.endswith("::position")]
     al = [c for c in b.live_calls() if c.callee == "util::split_vec::SplitVec::all"]
     si = [c for c in b.live_calls() if c.callee == "util::split_vec::SplitVec::split_index"]
+    if not pos and any(c.callee == "util::split_vec::SplitVec::split" for c in b.live_calls()):
+        return _r13_2_two_halves(ctx, prog, crate, b)
     if not ctx.check(len(pos) == 1 and len(al) == 1 and len(si) == 1, "R13.2", ["is_match", "shape"], "position x%d all x%d split_index x%d" % (len(pos), len(al), len(si)), b.where(0)):
         return
     ctx.check(any(z.kind == "call" and z.b == al[0].bb for z in b.prov.op_src(pos[0].args[0])) and nophi(b.prov.op_src(pos[0].args[0])), "R13.2", ["is_match", "searches-all-filters"],
